@@ -38,10 +38,16 @@ Inductive expr :=
 | ELit                 (* `1`: pure (the analyzer nevertheless records may_throw) *)
 | EThis.               (* `this`: pure, no effect on the analysis *)
 
+(* the tests of if / while / do-while / for, as far as mod.rs and the semantics distinguish them.  mod.rs asks swc's
+   `cast_to_bool` whether the test of a LOOP is `Known(true)` (nothing else), and visits the test as an expression *)
 Inductive cond :=
-| CTrue                (* `true`, `1`, `!0`  : cast_to_bool = Known(true)  *)
-| CFalse               (* `false`, `0`, `!1` : cast_to_bool = Known(false) *)
-| COpaque (e : expr).  (* identifier (pure) or call (may throw); value unknown *)
+| CTrue                (* `true`, `1`, `!0`, `"a"`, `[]`, `((1))`, `1 - 2` ..: pure, always truthy, cast_to_bool = Known(true) *)
+| CFalse               (* `false`, `0`, `!1`, `null`, `void 0`, `` `` ``, `!!!!0` ..: pure, always falsy, cast_to_bool is not Known(true) *)
+| COpaque (e : expr)   (* identifier (pure) or call (may throw); value unknown *)
+| CSeq (e : expr) (b : bool)
+                       (* `(e, true)`, `e || true` / `(e, false)`, `e && false`: evaluates e (may throw), then the
+                          value is the constant b; cast_to_bool = Known(b) *)
+| CUnkTrue.            (* `` `a` ``, `!!!!1` (deeper than swc looks), `1 ? 1 : 1`: pure, always truthy, cast_to_bool = Unknown *)
 
 Inductive stmt :=
 | SExpr (p : N) (e : expr)
@@ -157,6 +163,8 @@ Definition is_loop (s : stmt) : bool :=
   match s with SWhile _ _ _ | SDoWhile _ _ _ | SFor _ _ _ | SForIn _ _ | SForOf _ _ | SForHead _ _ _ _ _ _ => true | _ => false end.
 Definition is_fndecl (s : stmt) : bool := match s with SFnDecl _ _ _ _ => true | _ => false end.
 Definition cond_ok (c : cond) : bool := match c with COpaque ELit => false | _ => true end.
+(* (a swc defect is NOT modelled: for NaN-valued arithmetic such as `"a" - 1` cast_to_bool answers Known(true);
+   the generator does not produce such tests as `CTrue`, they are a known finding of their own) *)
 
 (* jump context: may `break;` / `continue;` appear, labels in scope (all / those of loops) *)
 Record jctx := { j_brk : bool; j_cont : bool; j_labels : list N; j_loop_labels : list N }.
